@@ -49,7 +49,9 @@ func (c *OpenIDConnectDeviceHandler) PopulateTokenEndpointResponse(ctx context.C
 		return errorsx.WithStack(fosite.ErrServerError.WithDebug("Failed to generate id token because subject is an empty string."))
 	}
 
-	err = c.OpenIDConnectRequestStorage.DeleteOpenIDConnectSession(ctx, deviceCode)
+	// The session is stored (and was loaded above) under the device code's signature; the complete device code
+	// is a credential and must not be handed to storage.
+	err = c.OpenIDConnectRequestStorage.DeleteOpenIDConnectSession(ctx, signature)
 	if err != nil {
 		return errorsx.WithStack(fosite.ErrServerError.WithWrap(err).WithDebug(err.Error()))
 	}
